@@ -1,5 +1,6 @@
 import XixiKV.Proofs.EngineMerge.Out
 import XixiKV.Properties.C07
+import XixiKV.Proofs.TransEq2
 /-!
 # C18 — hint files faithfully index the merged data files
 
@@ -176,6 +177,18 @@ example : AscIds exGm := by simp [exGm, AscIds]
   | some a, some b => a.index.map (fun x => (x.1.data.toList, x.2)) == b.index.map (fun x => (x.1.data.toList, x.2))
       && a.total - a.reclaim == b.total - b.reclaim && a.index.length == 3 && a.reclaim > b.reclaim
   | _, _ => false)
+
+/-- the hint codec as it stands in /repo (translated on every run, `Generated/Trans.lean`):
+    `EncodeHintRecord` = the model's `encodeHint` for positions < 2³² (the hypothesis `HintFits` of
+    the theorems above), and `DecodeHintRecord` returns what the model decodes whenever it decodes. -/
+theorem C18_translated_hint_codec :
+    (∀ (key : ByteArray) (p : Pos) (hintPos : ByteArray), p.fid < 2^32 → p.block < 2^32 → p.off < 2^32 → p.size < 2^32 →
+        20 ≤ hintPos.size →
+        Generated.Trans.datafile.EncodeHintRecord key (TransEq.goPos p) hintPos = encodeHint key p) ∧
+    (∀ (buf key : ByteArray) (p : Pos), decodeHint buf = some (key, p) →
+        Generated.Trans.datafile.DecodeHintRecord buf = (key, TransEq.goPos p)) :=
+  ⟨fun key p hp h1 h2 h3 h4 hf => TransEq.trans_EncodeHintRecord_eq25 key p hp h1 h2 h3 h4 hf,
+   fun buf key p h => TransEq.trans_DecodeHintRecord_eq buf key p h⟩
 
 end XixiKV.C18
 
